@@ -1,6 +1,7 @@
 package props
 
 import (
+	"strings"
 	"encoding/json"
 	"fmt"
 	"math"
@@ -46,16 +47,24 @@ var c08RunSeq int64
 func restartWorker(w *kernel.Worker) (*kernel.Worker, error) {
 	_ = w.Call("shutdown", nil, nil)
 	w.Kill()
-	nw, err := kernel.Spawn(kernel.SpawnOpts{Dir: w.Dir})
-	if err != nil {
-		return nil, err
+	var last error
+	for attempt := 0; attempt < 3; attempt++ { // a boot can lose a port race: retry
+		nw, err := kernel.Spawn(kernel.SpawnOpts{Dir: w.Dir})
+		if err != nil {
+			return nil, err
+		}
+		if err := nw.Call("boot", map[string]interface{}{"server": true, "dir": w.Dir}, nil); err != nil {
+			st := nw.StderrTail()
+			nw.Close()
+			last = fmt.Errorf("reboot failed: %v\n%s", err, st)
+			if strings.Contains(st, "address already in use") || strings.Contains(st, "not listening") {
+				continue
+			}
+			return nil, last
+		}
+		return nw, nil
 	}
-	if err := nw.Call("boot", map[string]interface{}{"server": true, "dir": w.Dir}, nil); err != nil {
-		st := nw.StderrTail()
-		nw.Close()
-		return nil, fmt.Errorf("reboot failed: %v\n%s", err, st)
-	}
-	return nw, nil
+	return nil, last
 }
 
 func c08RunE2E(w0 *kernel.Worker, j *c08Job, rep *kernel.Report) (*Fail, error) {
